@@ -15,6 +15,7 @@ TolOf(e) ==
    ELSE IF e.rel = "S_mie_vs_textbook" THEN (IF BigX(e) THEN Tol_S_mie_big ELSE Tol_S_mie)
    ELSE IF e.rel = "S_pyseries_vs_textbook" THEN (IF BigX(e) THEN Tol_S_mie_big ELSE Tol_S_pyseries)
    ELSE IF e.rel = "field_mie_vs_multisphere" THEN (IF Dense(e) THEN Tol_mie_multisphere_default_dense ELSE Tol_mie_multisphere_default)
+   ELSE IF e.rel = "field_mie_vs_multisphere_radial" THEN (IF Dense(e) THEN Tol_mie_multisphere_default_dense ELSE Tol_mie_multisphere_default)
    ELSE IF e.rel = "field_mie_vs_multisphere_tight" THEN (IF Dense(e) THEN Tol_mie_multisphere_tight_dense ELSE Tol_mie_multisphere_tight)
    ELSE IF e.rel = "field_mie_vs_textbook_farfield" THEN (IF BigX(e) THEN Tol_S_mie_big ELSE Tol_S_mie)
    ELSE IF e.rel = "field_moves_with_detector" THEN Tol_field_invariance
